@@ -279,6 +279,7 @@ type histRun struct {
 	inImpl                                                   bool // true while a library call is executing
 	noOracle                                                 bool // replayed copy used as an oracle: no nested oracles
 	unbounded                                                map[int]bool
+	outside                                                  map[int]bool // replicas outside the histories with re-opened logs (owf): opened under a foreign id or at a named head, or merged from such a log
 	joinFailed                                               map[int]bool
 }
 
@@ -377,7 +378,10 @@ func (h *histRun) monitorState(r int, opIdx int, unbounded bool) {
 			h.fail("C02", "head-is-entry", "C02:head-not-entry", "head "+hd+" is not an entry of the log", opIdx)
 		}
 	}
-	if unbounded {
+	// every log of every history - truncated by bounded merges, re-opened over a selection of entries, merged
+	// from such logs - has exactly its unreferenced entries as heads (C16_every_log_of_every_history_is_a_log,
+	// C16_reopened_logs_are_logs); only logs opened under a foreign id or at a named head are outside
+	if unbounded || !h.outside[r] {
 		if want := unreferenced(entries); !eqStrings(sortedCopy(heads), want) {
 			h.fail("C02", "heads-exact", "C02:heads-not-unreferenced", fmt.Sprintf("heads=%v unreferenced=%v", sortedCopy(heads), want), opIdx)
 		}
@@ -479,6 +483,7 @@ func (h *histRun) exec() {
 	w := h.w
 	unbounded := map[int]bool{} // replicas never subjected to a bounded join
 	h.unbounded = unbounded
+	h.outside = map[int]bool{}
 	for i := 0; ; i++ {
 		po := h.gen(h, i)
 		if po == nil {
@@ -592,6 +597,7 @@ func (h *histRun) exec() {
 				// a selection that leaves entries out is causally open, like what a bounded join leaves; so is a log
 				// whose entries carry another id than its own
 				unbounded[ob.R] = unbounded[o.Src] && om.Len() == held.Len() && openID == src.logID && consistent
+				h.outside[ob.R] = h.outside[o.Src] || openID != src.logID || !consistent
 			case "append":
 				rep := w.reps[o.R]
 				before := rep.log.GetEntries().Slice()
@@ -669,6 +675,15 @@ func (h *histRun) exec() {
 				if !unbounded[o.Src] {
 					// entries taken from a truncated log: the destination may now hold a causally open set
 					unbounded[o.R] = false
+				}
+				if h.outside[o.Src] {
+					h.outside[o.R] = true
+				}
+				if err != nil && rep.ac == nil && !h.outside[o.Src] && !h.outside[o.R] {
+					// every entry of these histories was produced by Append: a log without an access controller
+					// of its own admits them all, so the merge succeeds (C06: success iff all missing entries are valid)
+					h.fail("C06", "honest-join", "C06:honest-join-failed", "a merge between replicas holding only appended entries, into a log without an access controller, failed: "+err.Error(), i)
+					h.fail("C01", "merge-succeeds", "C01:merge-failed", "a merge between replicas holding only appended entries, into a log without an access controller, failed: "+err.Error(), i)
 				}
 				if err != nil {
 					if h.joinFailed == nil {
